@@ -88,20 +88,111 @@ Definition log_cols (ops : list termop) : Z := fold_left (fun a o => a + op_cols
 Definition pending_cells (want : agrid) : Z :=
   fold_left (fun a row => a + Z.of_nat (length (filter (fun c => match ac c with ASkip => false | _ => true end) row))) want 0.
 
+(* "each in its own place": the cells a list of operations covers.
+   The positions written and the cursor afterwards, given the cursor before (None = unknown);
+   None if something is written with the cursor unknown.  Printing advances by the library's
+   own width; erasech(n, YES) moves to the end of the erased range, erasech(n, MAYBE) leaves
+   the cursor in an unknown position. *)
+Definition tpos := (Z * Z)%type.
+Definition cells_from (l c n : Z) : list tpos := map (pair l) (zseq c (Z.to_nat n)).
+
+Fixpoint track (cur : option tpos) (ops : list termop) : option (list tpos * option tpos) :=
+  match ops with
+  | [] => Some ([], cur)
+  | TGoto l c :: r => track (Some (l, c)) r
+  | TSetPen _ :: r => track cur r
+  | TPrint s :: r =>
+      match cur with
+      | None => None
+      | Some (l, c) =>
+          match track (Some (l, c + text_width s)) r with
+          | None => None
+          | Some (w, e) => Some (cells_from l c (text_width s) ++ w, e)
+          end
+      end
+  | TErase n mv :: r =>
+      match cur with
+      | None => None
+      | Some (l, c) =>
+          match track (if mv then Some (l, c + n) else None) r with
+          | None => None
+          | Some (w, e) => Some (cells_from l c n ++ w, e)
+          end
+      end
+  end.
+
+Definition is_skipc (c : cellc) : bool := match c with ASkip => true | _ => false end.
+
+(* the pending (non-skip) cells of a grid in row-major order *)
+Definition a_pending_row (y : Z) (row : list acell) : list tpos :=
+  map (pair y) (filter (fun x => negb (is_skipc (ac (nthz row x (mkA ASkip (-1)))))) (zseq 0 (length row))).
+Fixpoint a_pending_from (g : agrid) (y : Z) : list tpos :=
+  match g with
+  | [] => []
+  | row :: rest => a_pending_row y row ++ a_pending_from rest (y + 1)
+  end.
+Definition a_pending (g : agrid) : list tpos := a_pending_from g 0.
+
+Definition tpos_eqb (a b : tpos) : bool := (fst a =? fst b) && (snd a =? snd b).
+
+Definition covers_checkb (want : agrid) (log : list termop) : bool :=
+  match track None log with
+  | Some (w, _) => list_eqb tpos_eqb w (a_pending want)
+  | None => false
+  end.
+
+(* "what is shown": for buffers whose texts consist of width-one characters the terminal after
+   the flush is exactly the overlay of the pending cells on the terminal before -- each pending
+   cell shows its own content in its own pen, everything else is untouched (the statement of
+   theorem C04_flush_grid). *)
+Definition xcell (c : cellc) : option tcell :=
+  match c with
+  | ASkip => None
+  | AErase p => Some (mkT [32] (canon_pen p))
+  | ALine p m => Some (mkT [linechar m] (canon_pen p))
+  | AChar p cp => Some (mkT [cp] (canon_pen p))
+  | AText p u k => Some (mkT [nth (Z.to_nat k) u 0] (canon_pen p))
+  end.
+Definition over (c : cellc) (d : tcell) : tcell := match xcell c with Some tc => tc | None => d end.
+
+Definition narrowb (u : list Z) : bool := forallb (fun c => cpw c =? 1) u.
+Definition grid_narrowb (want : agrid) : bool :=
+  forallb (forallb (fun c => match ac c with AText _ u _ => narrowb u | _ => true end)) want.
+
+Definition dtc : tcell := mkT [] pen_empty.
+
+Definition overlay_checkb (want : agrid) (before after : list (list tcell)) : bool :=
+  negb (grid_narrowb want) ||
+  ((length before =? length after)%nat &&
+   forallb (fun y =>
+      let brow := nthz before y [] in
+      let arow := nthz after y [] in
+      let wrow := nthz want y [] in
+      (length brow =? length arow)%nat &&
+      forallb (fun x => tcell_eqb (nthz arow x dtc) (over (ac (nthz wrow x (mkA ASkip (-1)))) (nthz brow x dtc)))
+              (zseq 0 (length brow)))
+     (zseq 0 (length before))).
+
 Definition grids_eqb (a b : list (list tcell)) : bool := list_eqb (list_eqb tcell_eqb) a b.
 
 (* the verdict on one flush: [before] the terminal before, [log] the operations the
    implementation sent, [after] the grid it left.
    (1) a terminal that advances by the library's own widths, fed [log], ends with [after];
    (2) [after] meets the cell-wise expectation for [want] over [before];
-   (3) the log writes as many columns as there are pending cells. *)
+   (3) the log writes as many columns as there are pending cells;
+   (4) with the cursor tracked from "unknown", the log covers exactly the pending cells, each
+       once, in row-major order (the statement of theorem C04_flush_columns);
+   (5) if all texts of [want] consist of width-one characters, [after] is exactly the overlay
+       of the pending cells on [before] (the statement of theorem C04_flush_grid). *)
 Definition flush_checkb (want : ast) (before : term) (log : list termop) (after : list (list tcell)) : bool :=
   match t_run before log with
   | Ok t1 => grids_eqb (tg t1) after
   | _ => false
   end &&
   grid_meets (ag want) (tg before) after &&
-  (log_cols log =? pending_cells (ag want)).
+  (log_cols log =? pending_cells (ag want)) &&
+  covers_checkb (ag want) log &&
+  overlay_checkb (ag want) (tg before) after.
 
 (* the payload check for a terminal driven through the xterm driver: the printable bytes it
    received (control sequences stripped), as code points, must be the expected cell texts in
